@@ -22,7 +22,7 @@ class C03:
             "user-code evaluation of a compute node; distinct = distinct (program shape, tick pattern) digests")
     assumptions = ["the reference interpreter (sim/dataflow.py, appendix B of DESIGN.md) is the specification of the activation rule",
                    "scheduler cancellations are excluded here (C18 owns them)"]
-    allow = dict(how=("inline", "nested"), lift=True)
+    allow = dict(how=("inline", "nested"), lift=True, timer1p=True)
 
     def gen(self, seed):
         prog = gen_dataflow.gen_program(seed, allow=self.allow)
